@@ -64,3 +64,29 @@ def fn_key(prog, body_id):
 def need(cond, msg):
     if not cond:
         raise CheckBroken(msg)
+
+
+def skipped_only_when_empty(prog, bi, call_bb, operand):
+    """A batch operation `op(batch)` at call_bb may be skipped for an empty batch (`if !batch.is_empty() { op(batch) }`),
+    never for a non-empty one.  Returns None when that holds, else (block, text)."""
+    from mapstate import _bool_switches
+    from props.c12 import error_blocks
+    key = bi.trace(operand).key()
+    empty, nonempty = set(), set()
+    for bb, t in bi.calls(lambda c: c.path.endswith("::is_empty")):
+        if not t.args or t.dest is None or not t.dest.is_local():
+            continue
+        if bi.trace(t.args[0]).key() != key:
+            continue
+        for sw, tr, fa in _bool_switches(bi, t.dest.local):
+            if tr is not None:
+                empty |= bi.cfg.edge_dominated(sw, tr)
+            if fa is not None:
+                nonempty |= bi.cfg.edge_dominated(sw, fa)
+    if call_bb in empty:
+        return call_bb, "the operation runs only when its batch is empty: a non-empty batch is never applied"
+    # from the entry, every normal path applies the batch, or knows it is empty, or is an error path
+    esc = bi.cfg.escapes(0, {call_bb} | empty | error_blocks(bi), after=False)
+    if esc is not None and empty:
+        return esc[-1], "a path skips the operation although its batch may be non-empty"
+    return None
